@@ -336,6 +336,8 @@ def random_cfg(rng, alg=None, family="roomy", nobs=None, maxn=4):
             for n in o["wf"]["nodes"]:
                 if rng.random() < 0.35:
                     extra.append({"o": o["o"], "k": n["k"], "x": rng.choice([1, 1, 2])})
+    if rng.random() < 0.2:
+        cfg["decoy"] = rng.randint(1, 4)      # another simulation paused mid-run in the same process
     cfg["extra"] = extra
     if alg == "adv":
         cfg["advRounds"] = rng.randint(1, 4)
